@@ -3,7 +3,7 @@
    ARBITRARY incoming messages m2 (ResPQ), m5 (Server_DH_Params), m7 (dh_gen answer). *)
 From Coq Require Import ZArith List Bool.
 From Coq Require Import Znumtheory.
-From TD Require Import Lib.GoSem Lib.RunLib Lib.BigIntSem Gen.DhCheck Model.DhCheck Model.ExchangeAnswer Model.Exchange Model.ExchangeDemo Proof.Exchange.
+From TD Require Import Lib.GoSem Lib.RunLib Lib.BigIntSem Gen.DhCheck Model.DhCheck Model.ExchangeAnswer Model.Exchange Model.ExchangeDemo Model.TlSchema Gen.SchemaMt Model.ExchangeWire Proof.Exchange Proof.ExchangeWire.
 Import ListNotations.
 Open Scope Z_scope.
 
@@ -159,3 +159,42 @@ Proof. vm_compute. reflexivity. Qed.
 Example C10_move_wrong_hash :
   d_client d_m2 d_m5 (GenOk d_nonce d_server_nonce (repeat 0 16)) = Err EHash.
 Proof. vm_compute. reflexivity. Qed.
+
+(* ---------- byte level ----------
+   The client as a function of the BYTES of the three server messages (TL bodies decoded with the
+   generated mt schema): completion on bytes implies that the bytes decode to records that passed
+   every check -- C10_accept_only_if lifted to the wire ... *)
+Theorem C10_accept_only_if_bytes :
+  forall (pubkey cipher1 cipher3 : Type) (fp : pubkey -> Z) (rsa_enc : pubkey -> pq_inner -> cipher1)
+         (ans_dec : nonce -> nonce -> list Z -> option sdh_inner) (cin_enc : nonce -> nonce -> cdh_inner -> cipher3)
+         (powmod : Z -> Z -> Z -> Z) (prime : Z -> bool) (factor : Z -> option (Z * Z))
+         (nonce_hash1 : nonce -> list Z -> list Z) (key_id : list Z -> list Z) cf r b2 b5 b7 res,
+    client_run_bodies pubkey cipher1 cipher3 fp rsa_enc ans_dec cin_enc powmod prime factor nonce_hash1 key_id cf r b2 b5 b7 = Ok res ->
+    exists v2 m2 m5 m7,
+      value_of_body (TBoxed ci_respq) b2 = Some v2 /\ of_v_respq v2 = Some m2 /\
+      m5 = match value_of_body (TClass (cls_of ci_sdh_ok)) b5 with Some v => of_v_sdh v | None => SdhOther _ end /\
+      m7 = match value_of_body (TClass (cls_of ci_gen_ok)) b7 with Some v => of_v_gen v | None => GenOther end /\
+      accepted_checks pubkey (list Z) fp ans_dec powmod prime factor nonce_hash1 key_id cf r m2 m5 m7 res.
+Proof. exact accept_only_if_bodies. Qed.
+Print Assumptions C10_accept_only_if_bytes.
+
+(* ... and on the encodings of well-typed records the byte-level client IS the record-level
+   client (refinement), so every record-level theorem above speaks about the wire. *)
+Theorem C10_bytes_refine_records :
+  forall (pubkey cipher1 cipher3 : Type) (fp : pubkey -> Z) (rsa_enc : pubkey -> pq_inner -> cipher1)
+         (ans_dec : nonce -> nonce -> list Z -> option sdh_inner) (cin_enc : nonce -> nonce -> cdh_inner -> cipher3)
+         (powmod : Z -> Z -> Z -> Z) (prime : Z -> bool) (factor : Z -> option (Z * Z))
+         (nonce_hash1 : nonce -> list Z -> list Z) (key_id : list Z -> list Z)
+         cf r m2 n5 sn5 e5 n7 sn7 h7 b2 b5 b7,
+    0 <= rp_pq m2 ->
+    wt mt_schema (depth (v_respq m2)) (TBoxed ci_respq) (v_respq m2) = true ->
+    wt mt_schema (depth (v_sdh_ok n5 sn5 e5)) (TClass (cls_of ci_sdh_ok)) (v_sdh_ok n5 sn5 e5) = true ->
+    wt mt_schema (depth (v_gen_ok n7 sn7 h7)) (TClass (cls_of ci_gen_ok)) (v_gen_ok n7 sn7 h7) = true ->
+    body_of (TBoxed ci_respq) (v_respq m2) = Ok b2 ->
+    body_of (TClass (cls_of ci_sdh_ok)) (v_sdh_ok n5 sn5 e5) = Ok b5 ->
+    body_of (TClass (cls_of ci_gen_ok)) (v_gen_ok n7 sn7 h7) = Ok b7 ->
+    client_run_bodies pubkey cipher1 cipher3 fp rsa_enc ans_dec cin_enc powmod prime factor nonce_hash1 key_id cf r b2 b5 b7 =
+    client_run pubkey cipher1 (list Z) cipher3 fp rsa_enc ans_dec cin_enc powmod prime factor nonce_hash1 key_id cf r m2
+               (SdhOk _ n5 sn5 e5) (GenOk n7 sn7 h7).
+Proof. exact bodies_refine. Qed.
+Print Assumptions C10_bytes_refine_records.
